@@ -8,6 +8,7 @@ import (
 	"go/parser"
 	"go/token"
 	"net/http"
+	"net/http/httptest"
 	"os"
 	"os/exec"
 	"path/filepath"
@@ -404,6 +405,68 @@ func genCheckFile(c *Ctx, f genFile, outDir string, idx int) {
 	}
 }
 
+// procIcpt records the Spec a client-side unary interceptor sees.
+type procIcpt struct{ seen []connect.Spec }
+
+func (p *procIcpt) WrapUnary(next connect.UnaryFunc) connect.UnaryFunc {
+	return func(ctx context.Context, r connect.AnyRequest) (connect.AnyResponse, error) {
+		p.seen = append(p.seen, r.Spec())
+		return next(ctx, r)
+	}
+}
+func (p *procIcpt) WrapStreamingClient(next connect.StreamingClientFunc) connect.StreamingClientFunc {
+	return next
+}
+func (p *procIcpt) WrapStreamingHandler(next connect.StreamingHandlerFunc) connect.StreamingHandlerFunc {
+	return next
+}
+
+// specLabelReuseProbe (C17 / C12, oracle only): a client labels every call with its own
+// procedure - also when the Request value it is given has been used before: sent through a
+// client for another procedure, or received by a handler that now forwards it (a gateway). What
+// the generated client's constructor does per method is one connect.NewClient with the method's
+// path: the probe does the same (round 11, C17-mo).
+func specLabelReuseProbe(c *Ctx) {
+	mk := func(procedure string, icpt *procIcpt) *connect.Client[[]byte, []byte] {
+		return connect.NewClient[[]byte, []byte](&staticClient{status: 200, header: http.Header{"Content-Type": {"application/raw"}}, body: []byte{1}},
+			"http://h"+procedure, connect.WithCodec(rawCodec{"raw"}), connect.WithInterceptors(icpt))
+	}
+	// (a) one Request through two clients
+	c.Count("spec-label-reuse")
+	got := safely(func() string {
+		one, two := &procIcpt{}, &procIcpt{}
+		req := connect.NewRequest(&[]byte{1})
+		_, _ = mk("/acme.v1.Front/One", one).CallUnary(context.Background(), req)
+		_, _ = mk("/acme.v1.Back/Two", two).CallUnary(context.Background(), req)
+		if len(one.seen) != 1 || len(two.seen) != 1 {
+			return "interceptors did not run once each"
+		}
+		return fmt.Sprintf("%s client=%v | %s client=%v | request says %s", one.seen[0].Procedure, one.seen[0].IsClient, two.seen[0].Procedure, two.seen[0].IsClient, req.Spec().Procedure)
+	})
+	if got != "/acme.v1.Front/One client=true | /acme.v1.Back/Two client=true | request says /acme.v1.Back/Two" {
+		c.Fail("gen-spec-label", "one Request sent through the client for /acme.v1.Front/One and then through the client for /acme.v1.Back/Two", got, "each client labels the call with its own procedure")
+	}
+	// (b) a handler forwards the request it received
+	c.Count("spec-label-reuse")
+	got = safely(func() string {
+		back := &procIcpt{}
+		backClient := mk("/acme.v1.Back/Two", back)
+		h := connect.NewUnaryHandler("/acme.v1.Front/One", func(ctx context.Context, r *connect.Request[[]byte]) (*connect.Response[[]byte], error) {
+			return backClient.CallUnary(ctx, r)
+		}, connect.WithCodec(rawCodec{"raw"}))
+		req := httptest.NewRequest(http.MethodPost, "/acme.v1.Front/One", bytes.NewReader([]byte{1}))
+		req.Header.Set("Content-Type", "application/raw")
+		h.ServeHTTP(httptest.NewRecorder(), req)
+		if len(back.seen) != 1 {
+			return "the back client's interceptor did not run once"
+		}
+		return fmt.Sprintf("%s client=%v", back.seen[0].Procedure, back.seen[0].IsClient)
+	})
+	if got != "/acme.v1.Back/Two client=true" {
+		c.Fail("gen-spec-label", "a handler for /acme.v1.Front/One forwards the Request it received through a client for /acme.v1.Back/Two", got, "the client labels the call with its own procedure")
+	}
+}
+
 func streamGen(c *Ctx) {
 	if _, err := os.Stat(pluginPath()); err != nil {
 		c.Fail("gen-plugin-missing", "plugin binary", pluginPath(), "the generator does not build")
@@ -493,6 +556,7 @@ func streamGen(c *Ctx) {
 	genMultiFileProbe(c)
 	genVersionedPackagesProbe(c)
 	genCollisionProbes(c)
+	specLabelReuseProbe(c)
 	typecheckGenerated(c, outDir)
 	checkedInOutput(c)
 }
